@@ -36,6 +36,14 @@ class Requirement:
     """
 
     def __init__(self, requirement_string: str) -> None:
+        try:
+            self._init(requirement_string)
+        except RecursionError as e:
+            raise InvalidRequirementError(
+                "The requirement is invalid: it is nested too deeply"
+            ) from e
+
+    def _init(self, requirement_string: str) -> None:
         from lark import UnexpectedCharacters
         from lark import UnexpectedToken
 
